@@ -1,66 +1,208 @@
 import FiberModel.C08.Lemmas
-import FiberModel.C04.PathLemmas
 /-
-C08 — property theorems (model of the repaired code ⊑ spec), for every mount table, every
-iteration order of the map, every path and every chain result. No size bound anywhere.
+C08 — property theorems (model of the repaired code ⊑ spec), for every configuration, every mount
+table, every iteration order of the map, every path and every chain result / server error. No size
+bound anywhere.
 
-The map `appList` is a list of entries with pairwise different keys (`Nodup` of the keys — a Go map
-cannot hold two entries under one key); "any iteration order" is "any permutation of that list".
+The map `appList` is a list of entries with pairwise different keys; "any iteration order" is "any
+permutation of that list". Keys are told apart as the ROUTER tells mounts apart (`normKey`: leading
+slash added, letter case folded unless CaseSensitive): two apps mounted at "/api" and "/API" of a
+case-insensitive app, or at "api" and "/api", are one mount point to the router (the first one
+registered serves every request), and such tables are outside (hypothesis `Nodup`).
+
+`_partial` theorems carry the hypothesis `Known.K1 … = false` (known finding K1: parameterised mount
+prefixes); the theorems without it hold for every table (or, where stated, for every table without
+a parameterised prefix).
 -/
 namespace C08
-open B C04
+open B C04 C08.Known
 
 /-- Two mount prefixes of equal length that both contain the path on a segment boundary are the
 same prefix: what makes a deterministic choice by length possible. -/
-theorem boundary_match_unique {a b p : Bytes} (ha : contains a p = true) (hb : contains b p = true)
+theorem boundary_match_unique {a b p : Bytes} (ha : containsRaw a p = true) (hb : containsRaw b p = true)
     (hl : a.length = b.length) : a = b :=
-  prefix_eq_of_length_eq (contains_prefix ha) (contains_prefix hb) hl
+  prefix_eq_of_length_eq (containsRaw_prefix ha) (containsRaw_prefix hb) hl
 
-example : contains (b "/api") (b "/api/x") = true ∧ contains (b "/api") (b "/api-v2/x") = false ∧
-    contains (b "/api-v2") (b "/api-v2/x") = true ∧ contains (b "/") (b "/api") = true ∧
-    contains (b "/api/") (b "/api/x") = true ∧ contains (b "/api") (b "/api") = true := by decide
+example : containsRaw (b "/api") (b "/api/x") = true ∧ containsRaw (b "/api") (b "/api-v2/x") = false ∧
+    containsRaw (b "/api-v2") (b "/api-v2/x") = true ∧ containsRaw (b "/") (b "/api") = true ∧
+    containsRaw (b "/api/") (b "/api/x") = true ∧ containsRaw (b "/api") (b "/api") = true := by decide
 
-/-- The loop of `App.ErrorHandler` computes the spec's choice: the handler of the innermost
-(longest-prefix) mounted app that configured one and contains the path on a segment boundary. -/
-theorem select_eq_spec (l : List Mounted) (path : Bytes) (hnd : (l.map (·.pre)).Nodup) :
-    select l path = selectSpec l path := by
-  unfold selectSpec
-  rcases select_char l path with ⟨hno, hs⟩ | ⟨x, hbest, hs⟩
-  · have : candidates l path = [] := by
+/-- The same for keys as registered, under any configuration: equally long (as mounted) prefixes
+that both contain the path are the same mount point for the router. -/
+theorem boundary_match_unique_folded {cfg : Cfg} {a b p : Bytes} (ha : contains cfg a p = true)
+    (hb : contains cfg b p = true) (hl : (mountedAt a).length = (mountedAt b).length) :
+    fold cfg (mountedAt a) = fold cfg (mountedAt b) :=
+  prefix_eq_of_length_eq (containsRaw_prefix ha) (containsRaw_prefix hb) (by simpa using hl)
+
+example : contains ⟨false, false⟩ (b "/API") (b "/api/x") = true ∧ contains ⟨true, false⟩ (b "/API") (b "/api/x") = false ∧
+    contains ⟨false, false⟩ (b "api") (b "/Api/x") = true ∧ contains ⟨false, false⟩ (b "/:t") (b "/acme/x") = false ∧
+    coversPat ⟨false, false⟩ (b "/:t") (b "/acme/x") = some 5 ∧ coversPat ⟨false, false⟩ (b "/:t/api") (b "/acme/apix") = none ∧
+    coversPat ⟨false, false⟩ (b "/:t/api") (b "/acme/API/x") = some 9 ∧ coversPat ⟨true, false⟩ (b "/:t") (b "//x") = none := by
+  decide
+
+/-- The code's test (app.go hasMountPrefix, on the key with the leading slash the loop adds) is the
+spec's literal `contains`, for every configuration. -/
+theorem hasMountPrefix_eq_contains (cfg : Cfg) (path k : Bytes) :
+    hasMountPrefix cfg path (ensureSlash k) = contains cfg k path :=
+  hasMountPrefix_eq_contains' cfg path k
+
+/-- What the loop of `App.ErrorHandler` computes, for EVERY table (parameterised prefixes included):
+the handler of the innermost mounted app that configured one and contains the path literally. -/
+theorem select_eq_literal (cfg : Cfg) (l : List Mounted) (path : Bytes)
+    (hnd : (l.map (fun m => normKey cfg m.pre)).Nodup) :
+    select cfg l path = selectLiteral cfg l path := by
+  unfold selectLiteral
+  rcases select_char cfg l path with ⟨hno, hs⟩ | ⟨x, hbest, hs⟩
+  · have : literalCandidates cfg l path = [] := by
       apply List.eq_nil_iff_forall_not_mem.mpr
       intro m hm
-      exact hno m (mem_candidates.mp hm).1 (mem_candidates.mp hm).2
+      exact hno m (mem_literalCandidates.mp hm).1 (mem_literalCandidates.mp hm).2
     rw [hs, this]; rfl
-  · cases hi : innermost (candidates l path) with
+  · cases hi : innermost cfg path (literalCandidates cfg l path) with
     | none =>
       have := innermost_none.mp hi
-      have hx : x ∈ candidates l path := mem_candidates.mpr ⟨hbest.1, hbest.2.1⟩
+      have hx : x ∈ literalCandidates cfg l path := mem_literalCandidates.mpr ⟨hbest.1, hbest.2.1⟩
       rw [this] at hx; cases hx
     | some z =>
       obtain ⟨hz, hzmax⟩ := innermost_some hi
-      have hzb : Best l path z := by
-        refine ⟨(mem_candidates.mp hz).1, (mem_candidates.mp hz).2, ?_⟩
+      have hzc := (mem_literalCandidates.mp hz)
+      have hzb : Best cfg l path z := by
+        refine ⟨hzc.1, hzc.2, ?_⟩
         intro y hy hcy
-        exact hzmax y (mem_candidates.mpr ⟨hy, hcy⟩)
+        have := hzmax y (mem_literalCandidates.mpr ⟨hy, hcy⟩)
+        rw [reach_literal (cand_iff_literal.mp hcy).2.2, reach_literal (cand_iff_literal.mp hzc.2).2.2] at this
+        omega
       have := best_unique hnd hbest hzb
       subst this
       rw [hs]; rfl
 
-example : select [⟨[], none⟩, ⟨b "/api", some ⟨1, false⟩⟩, ⟨b "/api-v2", some ⟨2, false⟩⟩] (b "/api-v2/x")
-    = some ⟨2, false⟩ := by decide
+example : select ⟨false, false⟩ [⟨[], none⟩, ⟨b "/api", some ⟨1, false⟩⟩, ⟨b "/API-v2", some ⟨2, false⟩⟩,
+      ⟨b "/:t", some ⟨3, false⟩⟩] (b "/Api-V2/x") = some ⟨2, false⟩ := by decide
 
-/-- The selected handler does not depend on the order in which the map is iterated. -/
-theorem select_perm_invariant {l₁ l₂ : List Mounted} (path : Bytes) (h : l₁.Perm l₂)
-    (hnd : (l₁.map (·.pre)).Nodup) : select l₁ path = select l₂ path := by
-  have hnd₂ : (l₂.map (·.pre)).Nodup := (h.map _).nodup_iff.mp hnd
-  have hbest : ∀ x, Best l₁ path x → Best l₂ path x := by
+/-- Outside the region of known finding K1 the loop of `App.ErrorHandler` computes the spec's
+choice: the handler of the innermost mounted app that configured one and whose prefix — read as
+the router reads it — contains the path on a segment boundary.
+Full statement (false on the unchanged tree, see `select_eq_spec_witness_K1`):
+  ∀ cfg l path, Nodup keys → select cfg l path = selectSpec cfg l path. -/
+theorem select_eq_spec_partial (cfg : Cfg) (l : List Mounted) (path : Bytes)
+    (hnd : (l.map (fun m => normKey cfg m.pre)).Nodup) (hK : K1 cfg l path = false) :
+    select cfg l path = selectSpec cfg l path := by
+  unfold selectSpec
+  cases hi : innermost cfg path (candidates cfg l path) with
+  | none =>
+    have hnil := innermost_none.mp hi
+    rcases select_char cfg l path with ⟨_, hs⟩ | ⟨x, hbest, _⟩
+    · rw [hs]; rfl
+    · have hc := cand_iff_literal.mp hbest.2.1
+      have : x ∈ candidates cfg l path := mem_candidates.mpr ⟨hbest.1, hc.1, hc.2.1, Or.inl hc.2.2⟩
+      rw [hnil] at this; cases this
+  | some z =>
+    obtain ⟨hz, hzmax⟩ := innermost_some hi
+    have hzl : contains cfg z.pre path = true := by
+      unfold K1 at hK
+      rw [hi] at hK
+      simpa using hK
+    have hzm := mem_candidates.mp hz
+    have hzc : Cand cfg path z := cand_iff_literal.mpr ⟨hzm.2.1, hzm.2.2.1, hzl⟩
+    have hzb : Best cfg l path z := by
+      refine ⟨hzm.1, hzc, ?_⟩
+      intro y hy hcy
+      have hyl := cand_iff_literal.mp hcy
+      have := hzmax y (mem_candidates.mpr ⟨hy, hyl.1, hyl.2.1, Or.inl hyl.2.2⟩)
+      rw [reach_literal hyl.2.2, reach_literal hzl] at this
+      omega
+    rcases select_char cfg l path with ⟨hno, _⟩ | ⟨x, hbest, hs⟩
+    · exact absurd hzc (hno z hzm.1)
+    · have := best_unique hnd hbest hzb
+      subst this
+      rw [hs]; rfl
+
+example : K1 ⟨false, false⟩ [⟨[], none⟩, ⟨b "/:t", some ⟨1, false⟩⟩, ⟨b "/acme/sub", some ⟨2, false⟩⟩]
+      (b "/acme/sub/e") = false ∧
+    (([⟨[], none⟩, ⟨b "/:t", some ⟨1, false⟩⟩, ⟨b "/acme/sub", some ⟨2, false⟩⟩] : List Mounted).map
+      (fun m => normKey ⟨false, false⟩ m.pre)).Nodup := by decide
+
+/-- K1 on the real code's model: an app mounted at `/:tenant` with its own handler, request
+`/acme/e` — the sentence designates handler 1, the loop selects none (the root's runs). -/
+theorem select_eq_spec_witness_K1 :
+    ¬ (select ⟨false, false⟩ [⟨[], some ⟨0, false⟩⟩, ⟨b "/:tenant", some ⟨1, false⟩⟩] (b "/acme/e") =
+       selectSpec ⟨false, false⟩ [⟨[], some ⟨0, false⟩⟩, ⟨b "/:tenant", some ⟨1, false⟩⟩] (b "/acme/e")) := by
+  decide
+
+example : K1 ⟨false, false⟩ [⟨[], some ⟨0, false⟩⟩, ⟨b "/:tenant", some ⟨1, false⟩⟩] (b "/acme/e") = true := by
+  decide
+
+/-- The region K1 is no wider than the defect: when every mounted app has its own handler value
+(no two entries share one), EVERY table/path inside K1 is a genuine failure — the loop does not
+return the handler the sentence designates. -/
+theorem K1_is_failure (cfg : Cfg) (l : List Mounted) (path : Bytes)
+    (hown : ∀ x ∈ l, ∀ y ∈ l, x.own ≠ none → x.own = y.own → x = y)
+    (hK : K1 cfg l path = true) : select cfg l path ≠ selectSpec cfg l path := by
+  unfold K1 at hK
+  unfold selectSpec
+  cases hi : innermost cfg path (candidates cfg l path) with
+  | none => rw [hi] at hK; cases hK
+  | some z =>
+    rw [hi] at hK
+    have hzl : contains cfg z.pre path = false := by simpa using hK
+    obtain ⟨hz, _⟩ := innermost_some hi
+    have hzm := mem_candidates.mp hz
+    show select cfg l path ≠ z.own
+    rcases select_char cfg l path with ⟨_, hs⟩ | ⟨x, hbest, hs⟩
+    · rw [hs]; exact fun h => hzm.2.2.1 h.symm
+    · rw [hs]
+      intro hxz
+      have hxl := (cand_iff_literal.mp hbest.2.1)
+      have := hown x hbest.1 z hzm.1 hxl.2.1 hxz
+      subst this
+      rw [hxl.2.2] at hzl; cases hzl
+
+example : ∀ x ∈ ([⟨[], some ⟨0, false⟩⟩, ⟨b "/:tenant", some ⟨1, false⟩⟩] : List Mounted),
+    ∀ y ∈ ([⟨[], some ⟨0, false⟩⟩, ⟨b "/:tenant", some ⟨1, false⟩⟩] : List Mounted),
+    x.own ≠ none → x.own = y.own → x = y := by decide
+
+/-- no key of the table has a parameter segment -/
+def LiteralTable (l : List Mounted) : Prop := l.all (fun m => paramFree m.pre) = true
+
+instance (l : List Mounted) : Decidable (LiteralTable l) := by unfold LiteralTable; exact inferInstance
+
+theorem K1_false_of_literal {cfg : Cfg} {l : List Mounted} {path : Bytes} (hlit : LiteralTable l) :
+    K1 cfg l path = false := by
+  unfold K1
+  cases hi : innermost cfg path (candidates cfg l path) with
+  | none => rfl
+  | some z =>
+    obtain ⟨hz, _⟩ := innermost_some hi
+    have hzm := mem_candidates.mp hz
+    have : contains cfg z.pre path = true := by
+      rcases hzm.2.2.2 with h | h
+      · exact h
+      · exact coversPat_paramFree (List.all_eq_true.mp hlit z hzm.1) h
+    simp [this]
+
+/-- For every table without parameterised prefixes — under every configuration (CaseSensitive or
+not), keys with or without leading slash — the loop returns the spec's choice (full strength). -/
+theorem select_eq_spec (cfg : Cfg) (l : List Mounted) (path : Bytes)
+    (hnd : (l.map (fun m => normKey cfg m.pre)).Nodup) (hlit : LiteralTable l) :
+    select cfg l path = selectSpec cfg l path :=
+  select_eq_spec_partial cfg l path hnd (K1_false_of_literal hlit)
+
+example : LiteralTable [⟨[], none⟩, ⟨b "/api", some ⟨1, false⟩⟩, ⟨b "api-v2", some ⟨2, false⟩⟩, ⟨b "/API/v2", none⟩] := by
+  decide
+
+/-- The selected handler does not depend on the order in which the map is iterated — for every
+table (parameterised prefixes included) and every configuration. -/
+theorem select_perm_invariant {cfg : Cfg} {l₁ l₂ : List Mounted} (path : Bytes) (h : l₁.Perm l₂)
+    (hnd : (l₁.map (fun m => normKey cfg m.pre)).Nodup) : select cfg l₁ path = select cfg l₂ path := by
+  have hnd₂ : (l₂.map (fun m => normKey cfg m.pre)).Nodup := (h.map _).nodup_iff.mp hnd
+  have hbest : ∀ x, Best cfg l₁ path x → Best cfg l₂ path x := by
     intro x hx
     exact ⟨h.mem_iff.mp hx.1, hx.2.1, fun y hy hc => hx.2.2 y (h.mem_iff.mpr hy) hc⟩
-  rcases select_char l₁ path with ⟨hno₁, hs₁⟩ | ⟨x, hb₁, hs₁⟩
-  · rcases select_char l₂ path with ⟨_, hs₂⟩ | ⟨y, hb₂, _⟩
+  rcases select_char cfg l₁ path with ⟨hno₁, hs₁⟩ | ⟨x, hb₁, hs₁⟩
+  · rcases select_char cfg l₂ path with ⟨_, hs₂⟩ | ⟨y, hb₂, _⟩
     · rw [hs₁, hs₂]
     · exact absurd hb₂.2.1 (hno₁ y (h.mem_iff.mpr hb₂.1))
-  · rcases select_char l₂ path with ⟨hno₂, _⟩ | ⟨y, hb₂, hs₂⟩
+  · rcases select_char cfg l₂ path with ⟨hno₂, _⟩ | ⟨y, hb₂, hs₂⟩
     · exact absurd hb₁.2.1 (hno₂ x (h.mem_iff.mp hb₁.1))
     · have := best_unique hnd₂ (hbest x hb₁) hb₂
       subst this
@@ -70,24 +212,20 @@ example : [⟨b "/api", some ⟨1, false⟩⟩, ⟨b "/api-v2", some ⟨2, false
     [⟨b "/api-v2", some ⟨2, false⟩⟩, (⟨b "/api", some ⟨1, false⟩⟩ : Mounted)] :=
   List.Perm.swap _ _ _
 
-/-- the code before the fix: the same table, two iteration orders, two different handlers -/
+/-- the code before the first fix: the same table, two iteration orders, two different handlers -/
 theorem old_order_dependent :
     selectOld [⟨b "/api", some ⟨1, false⟩⟩, ⟨b "/api-v2", some ⟨2, false⟩⟩] (b "/api-v2/x") ≠
     selectOld [⟨b "/api-v2", some ⟨2, false⟩⟩, ⟨b "/api", some ⟨1, false⟩⟩] (b "/api-v2/x") := by decide
 
-/-- The funnel meets the spec for EVERY iteration order of the map: the outcome (who ran and how
-often, status, body) is the one the property designates. -/
-theorem funnel_meets_spec {l l' : List Mounted} (rootOwn : Option Own) (path : Bytes) (chain : Option Err)
-    (hperm : l.Perm l') (hnd : (l.map (·.pre)).Nodup) :
-    funnel l' rootOwn path chain = expected l rootOwn path chain := by
+theorem funnel_of_select {cfg : Cfg} {l l' : List Mounted} (rootOwn : Option Own) (path : Bytes)
+    (chain : Option Err) (hsel : select cfg l' path = selectSpec cfg l path) :
+    funnel cfg l' rootOwn path chain = expected cfg l rootOwn path chain := by
   cases chain with
   | none => rfl
   | some e =>
-    have hsel : select l' path = selectSpec l path := by
-      rw [← select_perm_invariant path hperm hnd, select_eq_spec l path hnd]
     unfold funnel expected errorHandler designated
     rw [hsel]
-    cases hs : selectSpec l path with
+    cases hs : selectSpec cfg l path with
     | some o =>
       simp only [invoke]
       by_cases hf : o.fails <;> simp [hf]
@@ -98,43 +236,126 @@ theorem funnel_meets_spec {l l' : List Mounted} (rootOwn : Option Own) (path : B
         simp only [invoke]
         by_cases hf : o.fails <;> simp [hf]
 
+/-- Outside K1 the funnel meets the spec for EVERY iteration order of the map: the outcome (who ran
+and how often, status, body) is the one the property designates.
+Full statement (false on the unchanged tree, see `funnel_meets_spec_witness_K1`): the same without `hK`. -/
+theorem funnel_meets_spec_partial {cfg : Cfg} {l l' : List Mounted} (rootOwn : Option Own) (path : Bytes)
+    (chain : Option Err) (hperm : l.Perm l') (hnd : (l.map (fun m => normKey cfg m.pre)).Nodup)
+    (hK : K1 cfg l path = false) :
+    funnel cfg l' rootOwn path chain = expected cfg l rootOwn path chain :=
+  funnel_of_select rootOwn path chain
+    (by rw [← select_perm_invariant path hperm hnd, select_eq_spec_partial cfg l path hnd hK])
+
+theorem funnel_meets_spec_witness_K1 :
+    ¬ (funnel ⟨false, false⟩ [⟨[], some ⟨0, false⟩⟩, ⟨b "/:tenant", some ⟨1, false⟩⟩] (some ⟨0, false⟩)
+        (b "/acme/e") (some (.plain (b "boom"))) =
+       expected ⟨false, false⟩ [⟨[], some ⟨0, false⟩⟩, ⟨b "/:tenant", some ⟨1, false⟩⟩] (some ⟨0, false⟩)
+        (b "/acme/e") (some (.plain (b "boom")))) := by
+  decide
+
+/-- For every table without parameterised prefixes the funnel meets the spec for every
+configuration, iteration order, path and chain result (full strength). -/
+theorem funnel_meets_spec {cfg : Cfg} {l l' : List Mounted} (rootOwn : Option Own) (path : Bytes)
+    (chain : Option Err) (hperm : l.Perm l') (hnd : (l.map (fun m => normKey cfg m.pre)).Nodup)
+    (hlit : LiteralTable l) :
+    funnel cfg l' rootOwn path chain = expected cfg l rootOwn path chain :=
+  funnel_meets_spec_partial rootOwn path chain hperm hnd (K1_false_of_literal hlit)
+
 /-- An error returned by the chain is delivered to exactly one handler exactly once; no error, no
-call. -/
-theorem exactly_once (l : List Mounted) (rootOwn : Option Own) (path : Bytes) :
-    funnel l rootOwn path none = none ∧
-    ∀ e, ∃ o, funnel l rootOwn path (some e) = some o ∧ o.ran.length = 1 := by
+call. Every table, every configuration. -/
+theorem exactly_once (cfg : Cfg) (l : List Mounted) (rootOwn : Option Own) (path : Bytes) :
+    funnel cfg l rootOwn path none = none ∧
+    ∀ e, ∃ o, funnel cfg l rootOwn path (some e) = some o ∧ o.ran.length = 1 := by
   refine ⟨rfl, ?_⟩
   intro e
   simp only [funnel]
-  generalize errorHandler l rootOwn path e = x
+  generalize errorHandler cfg l rootOwn path e = x
   rcases x with ⟨r, _ | ⟨st, body⟩⟩
   · exact ⟨⟨[r], 500, b "Internal Server Error"⟩, rfl, rfl⟩
   · exact ⟨⟨[r], st, body⟩, rfl, rfl⟩
 
 /-- Under the default handler the status of a framework error value becomes the response status;
 any other error gives 500; the body is the error's message. -/
-theorem status_of_error (l : List Mounted) (path : Bytes) (e : Err)
-    (hsel : select l path = none) :
-    funnel l none path (some e) =
+theorem status_of_error (cfg : Cfg) (l : List Mounted) (path : Bytes) (e : Err)
+    (hsel : select cfg l path = none) :
+    funnel cfg l none path (some e) =
       some ⟨[.default], (match e with | .fiber c _ => c | .plain _ => 500), e.msg⟩ := by
   unfold funnel errorHandler
   rw [hsel]
   cases e <;> simp [invoke, defaultHandler, Err.msg]
 
-example : funnel (appList none []) none (b "/x") (some (.fiber 404 (b "Cannot GET /x")))
+example : funnel ⟨false, false⟩ (appList none []) none (b "/x") (some (.fiber 404 (b "Cannot GET /x")))
     = some ⟨[.default], 404, b "Cannot GET /x"⟩ := by decide
 
 /-- A failing error handler — mounted or root — yields a 500. -/
-theorem failing_handler_500 (l : List Mounted) (rootOwn : Option Own) (path : Bytes) (e : Err) (o : Own)
-    (hsel : select l path = some o ∨ (select l path = none ∧ rootOwn = some o)) (hf : o.fails = true) :
-    funnel l rootOwn path (some e) = some ⟨[.custom o.id], 500, b "Internal Server Error"⟩ := by
+theorem failing_handler_500 (cfg : Cfg) (l : List Mounted) (rootOwn : Option Own) (path : Bytes) (e : Err) (o : Own)
+    (hsel : select cfg l path = some o ∨ (select cfg l path = none ∧ rootOwn = some o)) (hf : o.fails = true) :
+    funnel cfg l rootOwn path (some e) = some ⟨[.custom o.id], 500, b "Internal Server Error"⟩ := by
   unfold funnel errorHandler
   rcases hsel with hs | ⟨hs, hr⟩
   · rw [hs]; simp [invoke, hf]
   · rw [hs, hr]; simp [invoke, hf]
 
-example : funnel (appList none [.mk none (b "/api") (some ⟨1, true⟩) []]) none (b "/api/e") (some (.plain (b "boom")))
-    = some ⟨[.custom 1], 500, b "Internal Server Error"⟩ := by decide
+example : funnel ⟨false, false⟩ (appList none [.mk [] (b "/api") (some ⟨1, true⟩) []]) none (b "/API/e")
+    (some (.plain (b "boom"))) = some ⟨[.custom 1], 500, b "Internal Server Error"⟩ := by decide
+
+/-! ### errors before routing -/
+
+/-- `serverErrorHandler`'s switch is the spec's table, for every error fasthttp can hand over
+(every combination of what the switch tests, every text). -/
+theorem mapServerErr_eq_spec (e : SrvErr) : mapServerErr e = specServerErr e := by
+  obtain ⟨a, c, d, f, g, m⟩ := e
+  cases a <;> cases c <;> cases d <;> cases f <;> cases g <;> simp [mapServerErr, specServerErr]
+
+/-- a server error always enters the funnel as a framework error with one of six statuses -/
+theorem server_error_status (e : SrvErr) :
+    ∃ c m, mapServerErr e = .fiber c m ∧ c ∈ [431, 408, 502, 413, 405, 400] := by
+  unfold mapServerErr
+  by_cases h1 : e.smallBuffer = true
+  · exact ⟨431, b "Request Header Fields Too Large", by simp [h1], by simp⟩
+  by_cases h2 : e.opTimeout = true
+  · exact ⟨408, b "Request Timeout", by simp [h1, h2], by simp⟩
+  by_cases h3 : e.netError = true
+  · exact ⟨502, b "Bad Gateway", by simp [h1, h2, h3], by simp⟩
+  by_cases h4 : e.bodyTooLarge = true
+  · exact ⟨413, b "Request Entity Too Large", by simp [h1, h2, h3, h4], by simp⟩
+  by_cases h5 : e.getOnly = true
+  · exact ⟨405, b "Method Not Allowed", by simp [h1, h2, h3, h4, h5], by simp⟩
+  by_cases h6 : (indexOf e.msg (b "timeout")).isSome = true
+  · exact ⟨408, b "Request Timeout", by simp [h1, h2, h3, h4, h5, h6], by simp⟩
+  · exact ⟨400, e.msg, by simp [h1, h2, h3, h4, h5, h6], by simp⟩
+
+/-- A server error (header too large, body too large, bad request, …) is delivered exactly once to
+exactly one handler, for every table, order and configuration. -/
+theorem server_exactly_once (cfg : Cfg) (l : List Mounted) (rootOwn : Option Own) (path : Bytes) (e : SrvErr) :
+    ∃ o, serverFunnel cfg l rootOwn path e = some o ∧ o.ran.length = 1 :=
+  (exactly_once cfg l rootOwn path).2 (mapServerErr e)
+
+/-- Outside K1, for every iteration order: the server-error funnel calls the handler designated for
+the path the broken request's context carries, with the status/body of the spec's table. -/
+theorem server_funnel_meets_spec_partial {cfg : Cfg} {l l' : List Mounted} (rootOwn : Option Own)
+    (path : Bytes) (e : SrvErr) (hperm : l.Perm l') (hnd : (l.map (fun m => normKey cfg m.pre)).Nodup)
+    (hK : K1 cfg l path = false) :
+    serverFunnel cfg l' rootOwn path e = expectedServer cfg l rootOwn path e := by
+  unfold serverFunnel expectedServer
+  rw [mapServerErr_eq_spec]
+  exact funnel_meets_spec_partial rootOwn path _ hperm hnd hK
+
+/-- … and at full strength for tables without parameterised prefixes. -/
+theorem server_funnel_meets_spec {cfg : Cfg} {l l' : List Mounted} (rootOwn : Option Own)
+    (path : Bytes) (e : SrvErr) (hperm : l.Perm l') (hnd : (l.map (fun m => normKey cfg m.pre)).Nodup)
+    (hlit : LiteralTable l) :
+    serverFunnel cfg l' rootOwn path e = expectedServer cfg l rootOwn path e :=
+  server_funnel_meets_spec_partial rootOwn path e hperm hnd (K1_false_of_literal hlit)
+
+example : serverFunnel ⟨false, false⟩ (appList none [.mk [] (b "/api") (some ⟨1, false⟩) []]) none (b "/")
+      ⟨true, false, false, false, false, b "small read buffer"⟩
+    = some ⟨[.default], 431, b "Request Header Fields Too Large"⟩ ∧
+  serverFunnel ⟨false, false⟩ (appList none [.mk [] (b "/api") (some ⟨1, false⟩) []]) none (b "/api/p")
+      ⟨false, false, false, true, false, b "body size exceeds the given limit"⟩
+    = some ⟨[.custom 1], 418, b "eh1:Request Entity Too Large"⟩ := by decide
+
+/-! ### appList keys -/
 
 /-- appList keys of a nested mount do not depend on whether the inner app was mounted before or
 after the outer one: mount.go `mount` computes `getGroupPath(k1, getGroupPath(k2, k3))` (what
@@ -144,10 +365,10 @@ theorem appList_key_assoc (k1 k2 k3 : Bytes) :
     getGroupPath k1 (getGroupPath k2 k3) = getGroupPath (getGroupPath k1 k2) k3 :=
   (getGroupPath_assoc k1 k2 k3).symm
 
-/-- a concrete non-trivial table (mount from a group, look-alike siblings) -/
+/-- a concrete non-trivial table (mount from a group under a group, look-alike siblings, three deep) -/
 example : (appList (some ⟨0, false⟩)
-      [.mk none (b "/api") (some ⟨1, false⟩) [.mk (some (b "/g")) (b "v2/") none []],
-       .mk none (b "/api-v2") (some ⟨2, false⟩) []]).map (·.pre)
-    = [[], b "/api", b "/api/g/v2", b "/api-v2"] := by decide
+      [.mk [] (b "/api") (some ⟨1, false⟩) [.mk [b "/g", b "h/"] (b "v2/") none [.mk [] (b "in") (some ⟨3, false⟩) []]],
+       .mk [] (b "/api-v2") (some ⟨2, false⟩) []]).map (·.pre)
+    = [[], b "/api", b "/api/g/h/v2", b "/api/g/h/v2/in", b "/api-v2"] := by decide
 
 end C08
